@@ -166,9 +166,18 @@ func (d *ndpDriver) addr(a action) packet.Addr {
 }
 
 // waitSleepers waits for every loop observed asleep to reach its next check; returns those that did not.
+// Loops between their check and their select hold the channel that was just closed (it is read under the
+// mutex at the check): they will find it closed as soon as they reach the select.
 func (d *ndpDriver) waitSleepers() []int {
 	c := d.c
 	stuck := []int{}
+	c.mu.Lock()
+	for _, l := range c.order {
+		if l.pos == "act" {
+			l.wakeDue = true
+		}
+	}
+	c.mu.Unlock()
 	for i := 1; i <= c.nLoops(); i++ {
 		l := c.local(i)
 		c.mu.Lock()
@@ -328,6 +337,7 @@ func (d *ndpDriver) step(a action) (rec map[string]interface{}) {
 		}
 		c.mu.Lock()
 		a0, s0 := l.arrived, l.sleeps
+		l.wakeDue = false
 		c.mu.Unlock()
 		// after the check the loop ends, parks at its next gate or enters its select: wait for whichever shows first
 		if !c.release(l) || !c.waitFor(stepWait, func() bool { return l.pos == "done" || l.arrived > a0 || l.sleeps > s0 }) {
@@ -354,6 +364,13 @@ func (d *ndpDriver) step(a action) (rec map[string]interface{}) {
 		if !c.release(l) || !c.waitFor(stepWait, func() bool { return l.pos != "act" }) {
 			d.infra = fmt.Sprintf("loop %d did not finish its send round", l.local)
 			return nil
+		}
+		c.mu.Lock()
+		due := l.wakeDue
+		l.wakeDue = false
+		c.mu.Unlock()
+		if due { // its wake channel is already closed: the select returns at once
+			c.waitFor(stepWait, func() bool { return l.pos == "check" || l.pos == "done" })
 		}
 	case "ra":
 		rec["err"] = false
